@@ -147,10 +147,12 @@ impl Prop for C15 {
             Tier::Quick => vec![
                 Space { name: "corpus", size: nc, exhaustive: true, chunk: 8, case_timeout_s: 120.0, what: "every shipped source (modules, macros, sum types, arrays, scheduler)" },
                 Space { name: "gen", size: 1200, exhaustive: false, chunk: 20, case_timeout_s: 120.0, what: "generated programs x generated compilation histories" },
+                Space { name: "modsoup", size: 3000, exhaustive: false, chunk: 50, case_timeout_s: 120.0, what: "module-structured texts over a 4-name pool (wildcard and list imports, re-exports, duplicate names) x a history that mentions their identifiers in a shuffled order" },
             ],
             Tier::Thorough => vec![
                 Space { name: "corpus", size: nc, exhaustive: true, chunk: 8, case_timeout_s: 120.0, what: "every shipped source" },
                 Space { name: "gen", size: 20_000, exhaustive: false, chunk: 50, case_timeout_s: 120.0, what: "generated programs x generated compilation histories" },
+                Space { name: "modsoup", size: 80_000, exhaustive: false, chunk: 100, case_timeout_s: 120.0, what: "module-structured texts over a 4-name pool x a history that mentions their identifiers in a shuffled order" },
             ],
         }
     }
@@ -172,6 +174,11 @@ impl Prop for C15 {
                 classes.push("history:ident-shuffle".into());
             }
             return finish(src, sched, &history, classes, cx);
+        }
+        if space == "modsoup" {
+            let src = tg::modsoup(g);
+            let history = vec![ident_shuffle(&src, g)];
+            return finish(&src, false, &history, vec!["mode:modsoup".to_string(), "history:ident-shuffle".to_string()], cx);
         }
         let (cfg, _off) = c01::pcfg(cx);
         let mut pg = PG::new(g, cfg.clone());
